@@ -68,7 +68,8 @@ def audit(prop: str, timeout: int = 900) -> dict:
         return res
     probe = LEAN / ".lake" / f"audit_{prop}_{os.getpid()}.lean"
     probe.parent.mkdir(exist_ok=True)
-    body = f"import BBProps.{prop}\nopen BB\n" + "".join(f"#print axioms {n}\n" for n in names)
+    nss = sorted(set(re.findall(r"^namespace\s+([A-Za-z0-9_.]+)", strip_comments(f.read_text()), flags=re.M)) | {"BB"})
+    body = f"import BBProps.{prop}\n" + "".join(f"open {ns}\n" for ns in nss) + "".join(f"#print axioms {n}\n" for n in names)
     probe.write_text(body)
     try:
         r = subprocess.run(["lake", "env", "lean", str(probe)], cwd=LEAN, capture_output=True, text=True, timeout=timeout)
